@@ -601,7 +601,10 @@ def evaluator_path(cx, seed):
         withb = name != "positive"
         kw = dict(target=trho if name == "density" else tvec, bases=["XZ", "ZY", "ZZ"] if withb else None, samples=data,
                   space=sp, sample_bases=bases if withb else None)
-        ev = MetricEvaluator(1, {"F": ts.fidelity, "KL": ts.KL, "NLL": ts.NLL}, **kw)
+        # registration order is not alphabetical order: every value must sit under the name of its own function
+        reg = {"positive": ("NLL", "F", "KL"), "complex": ("KL", "NLL", "F"), "density": ("F", "NLL", "KL")}[name]
+        fns = {"F": ts.fidelity, "KL": ts.KL, "NLL": ts.NLL}
+        ev = MetricEvaluator(1, {m: fns[m] for m in reg}, **kw)
         probe = Probe(ev, kw)
         fit_kw = dict(input_bases=bases) if withb else {}
         st.fit(data, epochs=2, pos_batch_size=3, neg_batch_size=3, k=1, lr=0.05, callbacks=[ev, probe], **fit_kw)
